@@ -38,50 +38,8 @@ def atom(v):
     fail('unsupported constant %r' % (v,))
 
 
-def translate():
-    tree = parse('task_description.py')
-    consts = {}
-    cls = None
-    for node in tree.body:
-        if isinstance(node, ast.Assign) and len(node.targets) == 1 and isinstance(node.targets[0], ast.Name) \
-                and isinstance(node.value, ast.Constant) and isinstance(node.value.value, str):
-            consts[node.targets[0].id] = node.value.value
-        if isinstance(node, ast.ClassDef) and node.name == 'TaskDescription':
-            cls = node
-    if cls is None:
-        fail('class TaskDescription not found')
-
-    def cname(n):
-        """a key / mode expression -> its string value"""
-        if isinstance(n, ast.Constant) and isinstance(n.value, str):
-            return n.value
-        if isinstance(n, ast.Name) and n.id in consts:
-            return consts[n.id]
-        fail('expected a string constant, found %s' % ast.unparse(n))
-
-    schema = defaults = verify = None
-    for node in cls.body:
-        if isinstance(node, ast.Assign) and len(node.targets) == 1 and isinstance(node.targets[0], ast.Name):
-            if node.targets[0].id == '_schema':
-                if schema is not None: fail('_schema assigned twice')
-                schema = node.value
-            elif node.targets[0].id == '_defaults':
-                if defaults is not None: fail('_defaults assigned twice')
-                defaults = node.value
-            elif node.targets[0].id in ('_check', '_cast', '_deep', '_self_default'):
-                fail('TaskDescription overrides %s' % node.targets[0].id)
-        if isinstance(node, ast.FunctionDef):
-            if node.name == '_verify':
-                verify = node
-            elif node.name == '__init__':
-                want = 'def __init__(self, from_dict=None):\n    super().__init__(from_dict=from_dict)'
-                if ast.unparse(node) != want:
-                    fail('TaskDescription.__init__ changed: %s' % ast.unparse(node))
-            else:
-                fail('TaskDescription has an unknown method %s' % node.name)
-    if not isinstance(schema, ast.Dict) or not isinstance(defaults, ast.Dict) or verify is None:
-        fail('_schema / _defaults / _verify not found as literals')
-
+def read_tables(schema, defaults, cname, consts):
+    """_schema / _defaults dict literals -> [(key, coq ftype)], [(key, coq val)]"""
     # ---- schema
     def at(n):
         if isinstance(n, ast.Constant) and n.value is None:
@@ -128,6 +86,55 @@ def translate():
         if key in [x for x, _ in dfl]:
             fail('default key %s twice' % key)
         dfl.append((key, val))
+
+    return sch, dfl
+
+
+def translate():
+    tree = parse('task_description.py')
+    consts = {}
+    cls = None
+    for node in tree.body:
+        if isinstance(node, ast.Assign) and len(node.targets) == 1 and isinstance(node.targets[0], ast.Name) \
+                and isinstance(node.value, ast.Constant) and isinstance(node.value.value, str):
+            consts[node.targets[0].id] = node.value.value
+        if isinstance(node, ast.ClassDef) and node.name == 'TaskDescription':
+            cls = node
+    if cls is None:
+        fail('class TaskDescription not found')
+
+    def cname(n):
+        """a key / mode expression -> its string value"""
+        if isinstance(n, ast.Constant) and isinstance(n.value, str):
+            return n.value
+        if isinstance(n, ast.Name) and n.id in consts:
+            return consts[n.id]
+        fail('expected a string constant, found %s' % ast.unparse(n))
+
+    schema = defaults = verify = None
+    for node in cls.body:
+        if isinstance(node, ast.Assign) and len(node.targets) == 1 and isinstance(node.targets[0], ast.Name):
+            if node.targets[0].id == '_schema':
+                if schema is not None: fail('_schema assigned twice')
+                schema = node.value
+            elif node.targets[0].id == '_defaults':
+                if defaults is not None: fail('_defaults assigned twice')
+                defaults = node.value
+            elif node.targets[0].id in ('_check', '_cast', '_deep', '_self_default'):
+                fail('TaskDescription overrides %s' % node.targets[0].id)
+        if isinstance(node, ast.FunctionDef):
+            if node.name == '_verify':
+                verify = node
+            elif node.name == '__init__':
+                want = 'def __init__(self, from_dict=None):\n    super().__init__(from_dict=from_dict)'
+                if ast.unparse(node) != want:
+                    fail('TaskDescription.__init__ changed: %s' % ast.unparse(node))
+            else:
+                fail('TaskDescription has an unknown method %s' % node.name)
+    if not isinstance(schema, ast.Dict) or not isinstance(defaults, ast.Dict) or verify is None:
+        fail('_schema / _defaults / _verify not found as literals')
+
+    sch, dfl = read_tables(schema, defaults, cname, consts)
 
     # ---- _verify
     if ast.unparse(verify.args) != 'self' or verify.decorator_list:
@@ -271,8 +278,79 @@ def translate():
     return '\n'.join(out) + '\n'
 
 
+PD_VERIFY = """def _verify(self):
+    if not self.get('resource'):
+        raise ValueError
+    if self.get('backup_nodes') and (not self.get('nodes')):
+        raise ValueError
+    if not self.get('nodes'):
+        if not self.get('cores'):
+            raise ValueError
+    else:
+        if self.get('cores'):
+            raise ValueError
+        if self.get('gpus'):
+            raise ValueError"""
+
+
+def translate_pd():
+    """pilot_description.py: _schema and _defaults are translated; _verify must be, up to the
+    messages, the text above (it is modelled by hand as Descr.Model.pd_rules)."""
+    import re
+    tree = parse('pilot_description.py')
+    consts, cls = {}, None
+    for node in tree.body:
+        if isinstance(node, ast.Assign) and len(node.targets) == 1 and isinstance(node.targets[0], ast.Name) \
+                and isinstance(node.value, ast.Constant) and isinstance(node.value.value, str):
+            consts[node.targets[0].id] = node.value.value
+        if isinstance(node, ast.ClassDef) and node.name == 'PilotDescription':
+            cls = node
+    if cls is None:
+        fail('class PilotDescription not found')
+
+    def cname(n):
+        if isinstance(n, ast.Constant) and isinstance(n.value, str):
+            return n.value
+        if isinstance(n, ast.Name) and n.id in consts:
+            return consts[n.id]
+        fail('expected a string constant, found %s' % ast.unparse(n))
+    schema = defaults = verify = None
+    for node in cls.body:
+        if isinstance(node, ast.Assign) and len(node.targets) == 1 and isinstance(node.targets[0], ast.Name):
+            if node.targets[0].id == '_schema':
+                schema = node.value
+            elif node.targets[0].id == '_defaults':
+                defaults = node.value
+            elif node.targets[0].id in ('_check', '_cast', '_deep', '_self_default'):
+                fail('PilotDescription overrides %s' % node.targets[0].id)
+        if isinstance(node, ast.FunctionDef):
+            if node.name == '_verify':
+                verify = node
+            elif node.name == '__init__':
+                want = 'def __init__(self, from_dict=None):\n    super().__init__(from_dict=from_dict)'
+                if ast.unparse(node) != want:
+                    fail('PilotDescription.__init__ changed: %s' % ast.unparse(node))
+            else:
+                fail('PilotDescription has an unknown method %s' % node.name)
+    if not isinstance(schema, ast.Dict) or not isinstance(defaults, ast.Dict) or verify is None:
+        fail('PilotDescription: _schema / _defaults / _verify not found as literals')
+    got = re.sub(r'raise ValueError\(.*\)', 'raise ValueError', ast.unparse(verify))
+    if got != PD_VERIFY:
+        fail('PilotDescription._verify changed; the hand-written model pd_rules no longer applies:\n%s' % got)
+    sch, dfl = read_tables(schema, defaults, cname, consts)
+    S = coq_string
+    out = ['', '(* from src/radical/pilot/pilot_description.py *)']
+    out.append('Definition pd_schema : list (string * ftype) := [\n  %s].' % ';\n  '.join(
+        '(%s, %s)' % (S(k), t) for k, t in sch))
+    out.append('Definition pd_defaults : list (string * val) := [\n  %s].' % ';\n  '.join(
+        '(%s, %s)' % (S(k), v) for k, v in dfl))
+    out.append('Definition pd_table : table :=\n  mkTable pd_schema pd_defaults EmptyString [] [] '
+               '(EmptyString, EmptyString) [].')
+    return '\n'.join(out) + '\n'
+
+
 def main():
-    text = translate()
+    text = translate() + translate_pd()
     changed = write_if_changed(os.path.join(GEN, 'Descr.v'), text)
     print('Gen/Descr.v %s' % ('rewritten' if changed else 'unchanged'))
 
